@@ -162,6 +162,19 @@ def run_row(r, ctx, stats):
                     continue
                 sp1 = new_sp(mode, stream, chunk, ic)
                 got = outcome(sp1, invoke(sp1, entry, obj, form))
+                # the same on an object that has already used this very pattern object/text under the OPPOSITE
+                # ignorecase setting (a form's meaning must not depend on the object's history)
+                if form in ('native_str', 'other_str', 'compiled_native', 'compiled_other'):
+                    sp3 = new_sp(mode, stream, chunk, not ic)
+                    sp3.script.insert(0, ('timeout',))
+                    prim = outcome(sp3, invoke(sp3, entry, obj, form))
+                    sp3.ignorecase = ic
+                    got3 = outcome(sp3, invoke(sp3, entry, obj, form))
+                    stats['evaluations'] += 1
+                    if prim[0] not in ('TIMEOUT', 'timeout') or got3 != got:
+                        ctx.fail('C20:same-meaning-after-ignorecase-was-toggled', case,
+                                 detail={'priming_call': repr(prim), 'got': repr(got3), 'fresh_object': repr(got)},
+                                 signature={'form': form, 'mode': mode, 'entry': entry})
                 sp2 = new_sp(mode, stream, chunk, ic)
                 try:
                     exp = outcome(sp2, reference(sp2, want, text, mode))
